@@ -78,6 +78,24 @@ pub(crate) fn std_spec_char_range_contains(s: &mut impl Src) {
         assert!(('A'..='F').contains(&c) == ('A' <= c && c <= 'F'));
     }
 }
+// S9: the three facts about u8::count_ones assumed as axiom_popcount in the Verus unit color_opt (complete: all 256 values)
+pub(crate) fn std_spec_u8_count_ones(s: &mut impl Src) {
+    let b = s.u8();
+    let n = b.count_ones();
+    assert!(n <= 8);
+    assert!((n == 0) == (b == 0));
+    assert!((n == 8) == (b == 0xFF));
+}
+// S8: little-endian byte order of the std conversions assumed by vx_u32_le / vx_u16_le / vx_push_u32_le (unit fonts)
+pub(crate) fn std_spec_le_bytes(s: &mut impl Src) {
+    let x = s.u32();
+    let b = u32::to_le_bytes(x);
+    assert!(b[0] as u32 + 256 * (b[1] as u32) + 65536 * (b[2] as u32) + 16777216 * (b[3] as u32) == x);
+    assert!(u32::from_le_bytes(b) == x);
+    let y = (x & 0xFFFF) as u16;
+    let c = u16::to_le_bytes(y);
+    assert!(c[0] as u16 + 256 * (c[1] as u16) == y && u16::from_le_bytes(c) == y);
+}
 include!("/verif/kc/harness_macro.rs");
 kc_harness! {
     c18_attr_byte_roundtrip;
@@ -88,4 +106,6 @@ kc_harness! {
     c18_atascii_ascii_identity;
     c01_ctrla_table_len;
     std_spec_char_range_contains;
+    std_spec_u8_count_ones;
+    std_spec_le_bytes;
 }
